@@ -123,6 +123,23 @@ Proof. exact align_to_with_tiles. Qed.
 Theorem C01_align_to : forall T U base len, len < USIZE_MAX -> tiles T U base len (align_to T U base len).
 Proof. exact align_to_tiles. Qed.
 
+(* pod_align_to / pod_align_to_mut as translated from src/lib.rs are exactly one call of core's
+   align_to::<U> on the argument (nothing dropped, reordered or re-typed), so their three parts tile the
+   source, stay inside it, and the middle one is aligned *)
+Theorem C01_pod_align_to : forall ENV T U s,
+  Root.pod_align_to ENV T U s = Ret (slice_align_to T U s) /\
+  Root.pod_align_to_mut ENV T U s = Ret (slice_align_to T U s).
+Proof. intros ENV T U s. split; reflexivity. Qed.
+
+Theorem C01_pod_align_to_tiles : forall T U s, slen s < USIZE_MAX ->
+  let '(p, m, q) := slice_align_to T U s in
+  addr (sptr p) = addr (sptr s) /\
+  avail (sptr p) = slen p * sz T /\ avail (sptr m) = slen m * sz U /\ avail (sptr q) = slen q * sz T /\
+  slen p * sz T + slen m * sz U + slen q * sz T = slen s * sz T /\
+  (slen m * sz U <> 0 -> addr (sptr m) = addr (sptr s) + slen p * sz T /\ addr (sptr m) mod al U = 0) /\
+  (slen q * sz T <> 0 -> addr (sptr q) = addr (sptr s) + slen p * sz T + slen m * sz U).
+Proof. exact slice_align_to_tiles. Qed.
+
 (* non-vacuity: a successful cast of three 4-byte elements at 4096 to 2-byte elements yields a
    six-element view at 4096; an align-to split of seven bytes at 4097 into u32 is 3 + 1 + 0 *)
 Example C01_nonvacuous :
@@ -167,3 +184,5 @@ Print Assumptions C01_store_ref.
 Print Assumptions C01_zst.
 Print Assumptions C01_align_to_any_offset.
 Print Assumptions C01_align_to.
+Print Assumptions C01_pod_align_to.
+Print Assumptions C01_pod_align_to_tiles.
